@@ -182,7 +182,7 @@ def run_seq(rng, res, kind, ty, nops):
         if hmodel is not None:
             hmodel.close()
         if fails:
-            fails = [("# session:\n" + "\n".join(db.log[-300:]) + "\n# at: " + d, w) for d, w in fails]
+            fails = [("# session:\n" + "\n".join(db.log[-4000:]) + "\n# at: " + d, w) for d, w in fails]
         db.destroy()
     return fails
 
